@@ -141,7 +141,6 @@ pub fn gen_read(seed: u64, id: usize) -> CaseOut {
     let mut rep = Replica::new(InMemoryStorage::new());
     let ntasks = rng.range(1, 3);
     let mut maps: Vec<BTreeMap<String, String>> = vec![];
-    let mut via_pending: Vec<usize> = vec![];
     let mut ops = vec![];
     for u in 0..ntasks {
         ops.push(Operation::Create { uuid: uuid_of(u) });
@@ -161,15 +160,8 @@ pub fn gen_read(seed: u64, id: usize) -> CaseOut {
             let v = if rng.chance(15) { "".to_string() } else { vals[rng.below(vals.len())].clone() };
             m.insert(k, v);
         }
-        // some of the deleted tasks are pending first (they sit in the working set) and are only
-        // deleted after the sync below, with no working-set rebuild before the expiry
-        let via = m.get("status").map(|x| x == "deleted").unwrap_or(false) && rng.chance(50);
         for (k, v) in &m {
-            let v0 = if via && k == "status" { "pending".to_string() } else { v.clone() };
-            ops.push(Operation::Update { uuid: uuid_of(u), property: k.clone(), value: Some(v0), old_value: None, timestamp: Utc::now() });
-        }
-        if via {
-            via_pending.push(u);
+            ops.push(Operation::Update { uuid: uuid_of(u), property: k.clone(), value: Some(v.clone()), old_value: None, timestamp: Utc::now() });
         }
         maps.push(m);
     }
